@@ -19,8 +19,8 @@ pub static RESULT_FD: std::sync::atomic::AtomicI32 = std::sync::atomic::AtomicI3
 
 pub fn step_bound(sc: &Scenario) -> usize {
     match sc.engine {
-        Engine::Pool => 60_000 + 4_000 * sc.pool.as_ref().map(|p| p.size).unwrap_or(0),
-        _ => 600_000 + 4_000 * sc.conns.len(),
+        Engine::Pool => 60_000 + sc.pool.as_ref().map(|p| 4_000 * p.size + 60 * p.tasks.len()).unwrap_or(0),
+        _ => 600_000 + 4_000 * sc.conns.len().min(400) + 300 * sc.conns.len(),
     }
 }
 
@@ -201,7 +201,11 @@ fn prepare_child(sc: &Scenario, root: &Path, wfd: i32) {
         if std::env::var("VERIF_CHILD_BACKTRACE").is_ok() {
             eprintln!("PANIC pid={} panicking={} {}:{}: {}\n{}", std::process::id(), std::thread::panicking(), file, line, msg, std::backtrace::Backtrace::force_capture());
         }
-        let conn = rt::WORLD.get().and_then(|w| w.st.try_lock().ok().and_then(|s| s.last_conn));
+        // the connection the panicking worker is handling: by the name of the current simulated
+        // thread (not asked for panics raised inside the scheduler itself), else the connection of
+        // the last transport call
+        let who = if file.contains("shuttle") || rt::WORLD.get().is_none() { None } else { shuttle::thread::current().name().map(|s| s.to_string()) };
+        let conn = rt::WORLD.get().and_then(|w| w.st.try_lock().ok().and_then(|s| who.as_ref().and_then(|n| s.serving.get(n).copied()).or(s.last_conn)));
         if let Ok(mut p) = PANICS.lock() {
             p.push(PanicRec { file, line, msg, conn });
         }
